@@ -1,4 +1,5 @@
 import Minimq.Render
+import Minimq.SessOps
 /-
 `session/handshake.rs`, `operations.rs`, `drive.rs`, `inbound.rs` (process_received_packet):
 the asynchronous operations as machines whose suspended states are the await points (`Pc`).
@@ -52,39 +53,16 @@ def setRt (w : World) (r : Runtime) : World := { w with sess := { w.sess with rt
 
 /-- `maybe_queue_pingreq`. -/
 def maybeQueuePingreq (w : World) (now : Nat) : Except Err World :=
-  let rt := w.sess.rt
-  let due : Bool := match rt.nextPing with
-    | some np => decide (now ≥ np)
-    | none => false
-  if rt.pingTimeout.isNone && due && !w.sess.data.outbound.hasPendingPingreq then
-    match checkSize rt (encodeControl ControlAction.pingReq) with
-    | .error e => .error e
-    | .ok () =>
-      match w.sess.data.outbound.queueControl ControlAction.pingReq with
-      | none => .error .inflightExhausted
-      | some o => .ok (w.setOutbound o)
-  else .ok w
+  match w.sess.queuePing now with
+  | .error e => .error e
+  | .ok s => .ok { w with sess := s }
 
 /-- `complete_flush`. -/
 def completeFlush (w : World) (pkt : Flushed) (now : Nat) : World :=
-  let rt := w.sess.rt
-  let rt := match pkt with
-    | .control a => if a.typ = MT_PingReq then { rt with pingTimeout := some (now + ROUND_TRIP_TIMEOUT_MS * 1000) } else rt
-    | _ => rt
-  let rt := rt.noteOutboundActivity now
-  let o := w.sess.data.outbound
-  let o := match pkt with
-    | .control a => o.flushControl a
-    | .release id => o.flushRelease id
-    | .retained id => o.flushRetained id
-  (w.setRt rt).setOutbound o
+  { w with sess := w.sess.completeFlush pkt now }
 
 def setWritten (w : World) (pkt : Flushed) (written len : Nat) : World :=
-  let o := w.sess.data.outbound
-  w.setOutbound (match pkt with
-    | .control a => o.setControlWritten a written len
-    | .release id => o.setReleaseWritten id written len
-    | .retained id => o.setRetainedWritten id written len)
+  { w with sess := w.sess.setWritten pkt written len }
 
 /-- What `perform_outbound_step` prepares before its first await. -/
 inductive Prepared where
@@ -121,13 +99,13 @@ def prepareStep (w : World) (step : Outbound.Step) : Prepared :=
 /-- `process_received_packet`: `Ok(Some(len))` / `Ok(None)` / `Err`. -/
 def processReceivedPacket (w : World) : World × Except Err (Option Nat) :=
   if !w.sess.reader.packetAvailable then (w, .ok none) else
-  let (rd, res) := w.sess.reader.takePacket
-  let w := { w with sess := { w.sess with reader := rd } }
+  let (s1, res) := w.sess.takePkt
+  let w := { w with sess := s1 }
   match res with
   | none => (w.handleDisconnect, .error .peerInvalid)
   | some (len, pkt) =>
-    let (d, rt, r) := handlePacket w.sess.data w.sess.rt pkt
-    let w := { w with sess := { w.sess with data := d, rt := rt } }
+    let (s2, r) := w.sess.handle pkt
+    let w := { w with sess := s2 }
     match r with
     | .ok true => (w, .ok (some len))
     | .ok false => (w, .ok none)
@@ -151,45 +129,17 @@ def pubErr : PubEncErr → Err
 
 /-- CONNACK processing after a successful reason code (`connect_handshake`, second half). -/
 def activate (w : World) (sp : Bool) (block : Bytes) : World :=
-  let w := if !sp then { w with sess := { w.sess with data := w.sess.data.reset } } else w
-  let localQ := Outbound.maxInflight
-  -- the property loop
-  let step := fun (acc : Except Err (Nat × Nat × Option Nat × Option Nat × Nat × Option Bytes))
-      (item : Option Property) =>
-    match acc with
-    | .error e => .error e
-    | .ok (sq, msq, mq, mps, ka, cid) =>
-      match item with
-      | none => .error Err.peerInvalid
-      | some p =>
-        match p.kind, p.val with
-        | .MaximumPacketSize, .n v => .ok (sq, msq, mq, some v, ka, cid)
-        | .AssignedClientIdentifier, .s bs =>
-          if bs.length > CLIENT_ID_CAPACITY then .error Err.peerInvalid
-          else .ok (sq, msq, mq, mps, ka, some bs)
-        | .ServerKeepAlive, .n v => .ok (sq, msq, mq, mps, v * 1000, cid)
-        | .ReceiveMaximum, .n v =>
-          if v = 0 then .error Err.peerInvalid else .ok (min v localQ, min v localQ, mq, mps, ka, cid)
-        | .MaximumQoS, .n v => if v > 2 then .error Err.peerInvalid else .ok (sq, msq, some v, mps, ka, cid)
-        | _, _ => .ok (sq, msq, mq, mps, ka, cid)
-  match (iterEncoded block).foldl step (.ok (localQ, localQ, none, none, w.sess.rt.configuredKeepaliveMs, none)) with
-  | .error e => (w.handleDisconnect).finishErr "connect" e
-  | .ok (sq, msq, mq, mps, ka, cid) =>
-    let rt := w.sess.rt
-    let rt := { rt with sessionResumed := sp, keepaliveMs := ka,
-                        sendQuota := sq - w.sess.data.outbound.inflightPublishes,
-                        maxSendQuota := msq, maxQos := mq, maximumPacketSize := mps }
-    let sess := { w.sess with rt := rt, clientId := cid.getD w.sess.clientId,
-                              data := { w.sess.data with sessionPresent := true } }
-    let rt := (sess.rt.noteOutboundActivity w.now)
-    let sess := { sess with rt := { rt with pingTimeout := none } }
-    let w := { w with sess := sess, conn := some { live := true, resumed := sp } }
+  match w.sess.activate sp block w.now with
+  | (s, .error e) =>
+    ({ w with sess := s, conn := w.conn.map (fun (c : Conn) => { c with live := false }) } : World).finishErr "connect" e
+  | (s, .ok ()) =>
+    let w := { w with sess := s, conn := some { live := true, resumed := sp } }
     w.finish s!"ret connect ok {if sp then "reconnected" else "connected"}"
 
 /-- After the CONNACK bytes are complete: decode and act (`connect_handshake`, middle). -/
 def connectGotPacket (w : World) : World :=
-  let (rd, res) := w.sess.reader.takePacket
-  let w := { w with sess := { w.sess with reader := rd } }
+  let (s1, res) := w.sess.takePkt
+  let w := { w with sess := s1 }
   match res with
   | none => (w.handleDisconnect).finishErr "connect" .peerInvalid
   | some (_, .connAck sp rc block) =>
@@ -268,30 +218,29 @@ def afterFlush : Nat → World → AfterFlush → World
         | some m => if w.sess.downgrade && r.qos > m then m else r.qos
         | none => r.qos
       if qos > 0 then
-        let (d, id) := w.sess.data.nextPacketId
-        let w := { w with sess := { w.sess with data := d } }
+        let (s1, id) := w.sess.alloc
+        let w := { w with sess := s1 }
         if w.sess.data.outbound.retainedFull then w.finishErr "publish" .inflightExhausted else
         if !(w.live && canPublishS w.sess.data w.sess.rt qos) then w.finishErr "publish" .notReady else
         let h : PublishHeader := { topic := r.topic, packetId := some id, props := r.props, retain := r.retain, qos := qos, dup := false }
-        let (o, res) := w.sess.data.outbound.encodeAt (fun cap fill => encodePublishWithOffset cap h r.payload fill)
-        let w := w.setOutbound o
+        let (s2, res) := w.sess.encode (fun cap fill => encodePublishWithOffset cap h r.payload fill)
+        let w := { w with sess := s2 }
         match res with
         | .error e => w.finishErr "publish" (pubErr e)
         | .ok (off, len) =>
           if w.sess.rt.packetTooLarge len then w.finishErr "publish" .packetTooLarge else
-          match w.sess.data.outbound.retainPacket id off len with
+          match w.sess.retain id off len true with
           | none => w.finishErr "publish" .inflightExhausted
-          | some o =>
-            let w := w.setOutbound o
-            let w := w.setRt { w.sess.rt with sendQuota := w.sess.rt.sendQuota - 1 }
+          | some s3 =>
+            let w := { w with sess := s3 }
             let op : Op := { kind := if qos = 2 then .pub2 else .pub1, id := id, generation := w.sess.data.generation }
             flushLoop fuel w (.post "publish" op)
       else
         if !(w.live && canPublishS w.sess.data w.sess.rt 0) then w.finishErr "publish" .notReady else
         let h : PublishHeader := { topic := r.topic, packetId := none, props := r.props, retain := r.retain, qos := 0, dup := false }
         -- `scratch_space()` compacts, then the packet is encoded behind `used`
-        let (o, res) := w.sess.data.outbound.encodeAt (fun cap fill => encodePublishWithOffset cap h r.payload fill)
-        let w := w.setOutbound o
+        let (s2, res) := w.sess.encode (fun cap fill => encodePublishWithOffset cap h r.payload fill)
+        let w := { w with sess := s2 }
         match res with
         | .error e => w.finishErr "publish" (pubErr e)
         | .ok (off, len) =>
@@ -299,32 +248,32 @@ def afterFlush : Nat → World → AfterFlush → World
           doLocalWrite fuel w 1 (w.sess.data.outbound.retainedPacket off len)
     | .subPre r =>
       if w.sess.data.outbound.retainedFull then w.finishErr "subscribe" .inflightExhausted else
-      let (d, id) := w.sess.data.nextPacketId
-      let w := { w with sess := { w.sess with data := d } }
-      let (o, res) := w.sess.data.outbound.encodeAt (fun cap _ =>
+      let (s1, id) := w.sess.alloc
+      let w := { w with sess := s1 }
+      let (s2, res) := w.sess.encode (fun cap _ =>
         encodeWithOffset cap (subscribeChunks id (.slice r.props) r.topics) MT_Subscribe FLAGS_Subscribe)
-      let w := w.setOutbound o
+      let w := { w with sess := s2 }
       match res with
       | .error e => w.finishErr "subscribe" (Err.ofSer e)
       | .ok (off, len) =>
         if w.sess.rt.packetTooLarge len then w.finishErr "subscribe" .packetTooLarge else
-        match w.sess.data.outbound.retainPacket id off len with
+        match w.sess.retain id off len false with
         | none => w.finishErr "subscribe" .inflightExhausted
-        | some o => flushLoop fuel (w.setOutbound o) (.post "subscribe" { kind := .sub, id := id, generation := w.sess.data.generation })
+        | some s3 => flushLoop fuel { w with sess := s3 } (.post "subscribe" { kind := .sub, id := id, generation := w.sess.data.generation })
     | .unsubPre r =>
       if w.sess.data.outbound.retainedFull then w.finishErr "unsubscribe" .inflightExhausted else
-      let (d, id) := w.sess.data.nextPacketId
-      let w := { w with sess := { w.sess with data := d } }
-      let (o, res) := w.sess.data.outbound.encodeAt (fun cap _ =>
+      let (s1, id) := w.sess.alloc
+      let w := { w with sess := s1 }
+      let (s2, res) := w.sess.encode (fun cap _ =>
         encodeWithOffset cap (unsubscribeChunks id (.slice r.props) r.topics) MT_Unsubscribe FLAGS_Unsubscribe)
-      let w := w.setOutbound o
+      let w := { w with sess := s2 }
       match res with
       | .error e => w.finishErr "unsubscribe" (Err.ofSer e)
       | .ok (off, len) =>
         if w.sess.rt.packetTooLarge len then w.finishErr "unsubscribe" .packetTooLarge else
-        match w.sess.data.outbound.retainPacket id off len with
+        match w.sess.retain id off len false with
         | none => w.finishErr "unsubscribe" .inflightExhausted
-        | some o => flushLoop fuel (w.setOutbound o) (.post "unsubscribe" { kind := .unsub, id := id, generation := w.sess.data.generation })
+        | some s3 => flushLoop fuel { w with sess := s3 } (.post "unsubscribe" { kind := .unsub, id := id, generation := w.sess.data.generation })
     | .discPre d =>
       match encodeWithOffset CONTROL_PACKET_LEN d.chunks MT_Disconnect FLAGS_Disconnect with
       | .error e => w.finishErr "disconnect" (Err.ofSer e)
@@ -361,10 +310,9 @@ def doLocalFlush : Nat → World → Nat → World
       else (w.handleDisconnect).finishErr "disconnect" (.transport k)
     | (w, .ok) =>
       if which = 0 then
-        let w := w.setRt { w.sess.rt with nextPing := none, pingTimeout := none }
-        doConnRead fuel w
+        doConnRead fuel { w with sess := w.sess.clearPing }
       else if which = 1 then
-        (w.setRt (w.sess.rt.noteOutboundActivity w.now)).finish "ret publish ok none"
+        ({ w with sess := w.sess.noteActivity w.now }).finish "ret publish ok none"
       else (w.handleDisconnect).finish "ret disconnect ok"
 
 /-- `fill_packet_reader` inside `connect_handshake`. -/
@@ -372,17 +320,17 @@ def doConnRead : Nat → World → World
   | 0, w => w.emit "fuel"
   | fuel + 1, w =>
     if w.sess.reader.packetAvailable then connectGotPacket w else
-    match w.sess.reader.receiveWindow with
+    match w.sess.window with
     | none => (w.handleDisconnect).finishErr "connect" .peerInvalid
-    | some (rd, window) =>
-      let w := { w with sess := { w.sess with reader := rd } }
+    | some (s1, window) =>
+      let w := { w with sess := s1 }
       if window = 0 then connectGotPacket w else
       match w.ioRead window with
       | (w, .pending) => w.suspend .connRead
       | (w, .eof) => (w.handleDisconnect).finishErr "connect" .disconnected
       | (w, .err k) => (w.handleDisconnect).finishErr "connect" (.transport k)
       | (w, .ok bytes) =>
-        doConnRead fuel { w with sess := { w.sess with reader := w.sess.reader.commit bytes } }
+        doConnRead fuel { w with sess := w.sess.commit bytes }
 
 /-- `drive_packet` loop head (after the `live` check at function entry). -/
 def driveLoop : Nat → World → Outer → Bool → World
@@ -441,16 +389,16 @@ def doWaitRead : Nat → World → Outer → Option Nat → Bool → World
   | 0, w, _, _, _ => w.emit "fuel"
   | fuel + 1, w, outer, deadline, yielded =>
     if w.sess.reader.packetAvailable then driveEnter fuel w outer else
-    match w.sess.reader.receiveWindow with
+    match w.sess.window with
     | none => (w.handleDisconnect).finishErr (outerName outer) .peerInvalid
-    | some (rd, window) =>
-      let w := { w with sess := { w.sess with reader := rd } }
+    | some (s1, window) =>
+      let w := { w with sess := s1 }
       if window = 0 then driveEnter fuel w outer else
       match w.ioRead window with
       | (w, .eof) => (w.handleDisconnect).finishErr (outerName outer) .disconnected
       | (w, .err k) => (w.handleDisconnect).finishErr (outerName outer) (.transport k)
       | (w, .ok bytes) =>
-        doWaitRead fuel { w with sess := { w.sess with reader := w.sess.reader.commit bytes } } outer deadline yielded
+        doWaitRead fuel { w with sess := w.sess.commit bytes } outer deadline yielded
       | (w, .pending) =>
         match deadline with
         | none => w.suspend (.waitRead outer none true)
